@@ -283,8 +283,10 @@ func (r *replication) replicate(c *conn, req *appendReq) error {
 				}
 				close(stopCh)
 				if resp.result == staleTerm {
+					// draining reads into resp: keep what this response said
+					stale := *resp
 					drainRespsTimeout(r.hbTimeout / 2)
-					return r.onAppendEntriesResp(resp, result.lastIndex) // notifies ldr and return errStop
+					return r.onAppendEntriesResp(&stale, result.lastIndex) // notifies ldr and return errStop
 				}
 				if err = drainResps(); err != nil {
 					return err
